@@ -22,7 +22,8 @@ PID = "C01"
 RULE = ("cases: scheduler programs (<= 6 leaves of the five doer kinds + DoDoers nested to depth 3 with arbitrary own "
         "tock and always flag, <= 6 steps each, pool of <= 3 extra doers) with armed faults: raise in enter / at a "
         "step, KeyboardInterrupt at a step, extend / remove calls on own or ancestor scheduler made from a recur step or "
-        "from the doer's enter context, limits. "
+        "from the doer's enter context (also several calls in one context, e.g. remove then extend of one sibling, bound-method "
+        "doers named afresh in each call), limits. "
         "non-trivial = the run does not end by natural completion and >= 2 doers are alive when it stops; distinct = "
         "canonical hash of the program")
 ASSUMPTIONS = ["scripted doers follow the canonical try/except GeneratorExit/except Exception/else/finally skeleton (bareDo) "
@@ -180,6 +181,11 @@ def searches(tier):
     q = tier == "quick"
     full, nomem = _strategies()
     return [("enter-context-calls", _enter_ctx_strategy(), 300 if q else 5000),
+            # restart (remove then extend) of a sibling from an enter context or a step, bound-method doers frequent: the
+            # caller names the doer afresh in each call (equal, not identical objects)
+            ("restart-bound-method", schedgen.program(maxdepth=1, members=True, always_ok=True, dd_tocks=(0.0,),
+                                                      enter_ops=True, min_leaves=2, max_steps=3,
+                                                      kinds=["method", "method", "doer", "doize"]), 200 if q else 3000),
             ("faults", nomem, 500 if q else 8000),
             ("faults+membership", full, 500 if q else 8000),
             ("group-membership", _group_strategy(), 300 if q else 5000),
